@@ -101,6 +101,19 @@ impl rustls::sign::Signer for MislabelledKey {
     }
 }
 
+/// A correctly self-signed certificate for `key` with the given DNS names (possibly none at all)
+/// and, optionally, a subject alternative name that is not a DNS name (an IP address or a URI).
+pub fn gen_cert_shape(key: &[u8; 32], dns: &[String], non_dns: Option<u8>) -> CertificateDer<'static> {
+    let kp = rcgen_keypair(key);
+    let mut p = rcgen::CertificateParams::new(dns.to_vec()).unwrap();
+    match non_dns {
+        Some(0) => p.subject_alt_names.push(rcgen::SanType::IpAddress(std::net::IpAddr::from([10, 77, 0, 9]))),
+        Some(_) => p.subject_alt_names.push(rcgen::SanType::URI("spiffe://anemo/peer".try_into().unwrap())),
+        None => {}
+    }
+    p.self_signed(&kp).unwrap().der().to_owned()
+}
+
 pub fn gen_cert_names(key: &[u8; 32], names: &[&str]) -> CertificateDer<'static> {
     let kp = rcgen_keypair(key);
     rcgen::CertificateParams::new(names.iter().map(|s| s.to_string()).collect::<Vec<_>>())
